@@ -1,5 +1,6 @@
 """R-BOUNDS: every ArrayLike view establishes `index < self.len()` exactly before it translates,
 indexes with, captures or forwards (to a differently-sized inner array) the index."""
+import re
 from ..mir import strip, show, short_path, contains, opname
 from ..report import ok, bad, info, site, Floor
 
@@ -80,9 +81,9 @@ def place_uses_index(pl, val):
     return False
 
 
-def len_descs(prog, fn):
+def len_descs(prog, fn, impl=None):
     """descriptors that denote self.len() inside methods of fn's impl"""
-    impl = fn.parent
+    impl = impl or fn.parent
     lenfn = prog.fn(impl + "::len")
     out = {"fn": lenfn, "ret": None}
     if lenfn is not None:
@@ -134,15 +135,15 @@ def run(prog):
     return obs, floors, {"impls": impl_names}
 
 
-def check_method(prog, f):
+def check_method(prog, f, src=2, _depth=0, _impl=None):
     obs = []
-    impl = f.parent
+    impl = _impl or f.parent          # a helper in an inherent impl is judged against len() of the accessor's trait impl
     self_ty = f.self_ty
     method = f.path.rsplit("::", 1)[1]
     tname = short_path(self_ty)
-    val, ref = taint(f)
-    lens = len_descs(prog, f)
-    is_index = lambda d: strip(d) == ("param", 2)
+    val, ref = taint(f, src)
+    lens = len_descs(prog, f, impl)
+    is_index = lambda d: strip(d) == ("param", src)
     is_bound = lambda d: is_len_of_self(d, lens, impl)
 
     def guarded(b):
@@ -206,8 +207,18 @@ def check_method(prog, f):
                     sinks.append((b, "index", "%s on %s" % (short_path(unres), show(recv)), t["line"], None))
                 elif unres.startswith("core::cmp::"):
                     pass
+                elif re.match(r"core::num::<impl [ui](8|16|32|64|128|size)>::(checked|saturating|wrapping|overflowing)_(add|sub|mul)$", unres):
+                    pass  # cannot trap; its result is a new value, tested by whoever uses it
                 else:
-                    sinks.append((b, "helper", short_path(callee), t["line"], None))
+                    # a private helper of the same view type that receives the index and tests it itself (`fn map_idx(&self, i) ->
+                    # Option<usize>`): analysed like an accessor, with the receiving parameter as the index
+                    hf = prog.fn(callee) if _depth < 2 else None
+                    extra = None
+                    if hf is not None and hf.self_ty == self_ty and len(targs) == 1 and targs[0] >= 1:
+                        sub = check_method(prog, hf, src=targs[0] + 1, _depth=_depth + 1, _impl=impl)
+                        if sub and all(o.status != "open" for o in sub):
+                            extra = ("safe", "the helper %s tests the index against len() itself before using it" % short_path(callee))
+                    sinks.append((b, "helper", short_path(callee), t["line"], extra))
         elif isinstance(t, dict) and t["k"] == "assert":
             if any(op_tainted(o, val, ref) for o in t["ops"]):
                 pass  # the assert belongs to the arithmetic/index statement already listed
@@ -251,8 +262,16 @@ def partition_ok(f, b, kind, rv, part, is_index):
             neg = index_lt((d, not val), is_index, lower)
             if neg is True:
                 est = ("ge", u, v)
+        # `index.checked_sub(self.split)`: Some <=> index >= split, None <=> index < split
+        if isinstance(val, tuple) and val[0] == "variant" and val[1] in ("Some", "None"):
+            sd = strip(d)
+            c = strip(sd[1]) if sd[0] == "discr" else None
+            if c is not None and c[0] == "call" and str(c[1]).endswith("::checked_sub") and len(c[2]) == 2 and is_index(c[2][0]) and lower(c[2][1]):
+                est = ("ge" if val[1] == "Some" else "lt", u, v)
     if est is None:
         return None
+    if est[0] == "lt" and kind == "capture":
+        return "partition idiom: index < self.%s (checked_sub gave None), handed on unchanged for the lower part" % part["lower"]
     if est[0] == "lt" and kind == "forward":
         return "partition idiom: index < self.%s, forwarded unchanged to the lower part" % part["lower"]
     if est[0] == "ge":
@@ -320,6 +339,17 @@ def check_partition_ctor(prog):
     return obs
 
 
+def _unwrap_plumbing(d):
+    """`(x as Some).0`, `(branch(x) as Continue).0` and `x` are the same index: how an Option is unwrapped is not part of the translation"""
+    if not isinstance(d, tuple):
+        return d
+    if d and d[0] == "field" and len(d) == 3 and d[2] == "0" and isinstance(d[1], tuple) and d[1] and d[1][0] == "as" and d[1][-1] in ("Some", "Continue", "Ok"):
+        return _unwrap_plumbing(d[1][1])
+    if d and d[0] == "call" and ("Try" in str(d[1]) and str(d[1]).endswith("::branch")) and len(d[2]) == 1:
+        return _unwrap_plumbing(d[2][0])
+    return tuple(_unwrap_plumbing(x) for x in d)
+
+
 def forwarded(prog, f):
     """(receiver descriptor, index descriptor) of every call that hands an index-derived value to an inner
     array accessor or to a checked accessor"""
@@ -334,7 +364,7 @@ def forwarded(prog, f):
         if len(t["args"]) < 2:
             continue
         recv = strip(f.desc_op(t["args"][0]))
-        idx = strip(f.desc_op(t["args"][1]))
+        idx = _unwrap_plumbing(strip(f.desc_op(t["args"][1])))
         if not contains(idx, lambda x: x == ("param", 2)):
             continue
         out.append((recv, idx))
